@@ -1,5 +1,5 @@
 """C07 - equality is an equivalence consistent with hashing; HashMap is a finite map."""
-import json, os
+import json, os, re
 import vcommon as V
 import datacommon as D
 from datacommon import num, s, arr, hmap, code, NIL, NEGZERO, TRUE, FALSE
@@ -168,7 +168,7 @@ def main(replay=None):
         j = json.load(open(replay))["replay"]
         if j.get("kind") == "pairs":
             pair_evals = pairs_check(run, drv, himpl, tab, stack, P)
-        else:
+        elif j.get("kind") != "mfa-literal":
             cases.append(D.Case(j.get("kind", "replay"), j["nvars"], j["ops"], j.get("what"), j.get("oracle")))
     else:
         pair_evals = pairs_check(run, drv, himpl, tab, stack, P)
@@ -210,6 +210,45 @@ def main(replay=None):
             rep["broken"] = BROKEN
             rep["at_statement"], rep["statement"], rep["why"] = cm["index"], cm["sqf"], cm["why"]
             run.violation("implementation and reference dictionary / model disagree: " + cm["why"], rep, found_input=False)
+
+    # createHashMapFromArray against the reference dictionary, judged on the implementation's own answers: the map made from a literal
+    # array of pairs must be the one that `set` builds from the same pairs in their order (later pairs replace earlier ones with an equal
+    # key).  Every literal the histories above used is taken again, plus literals with deliberately repeated keys.
+    lits = {}
+    for r in res:
+        for m in r["model"]:
+            t = D.text(m[1])
+            mm = re.match(r"v\d+ = createHashMapFromArray (\[.*\])$", t)
+            if mm and not re.search(r"\bv\d+\b|\br_\b", mm.group(1)):
+                lits.setdefault(mm.group(1), None)
+    if not replay:
+        keys = ['"a"', '"A"', '"ab"', "1", "0", "-0", "0.5", "true", "false", "[1,2]", "[1,[2]]", "[]", '["a"]', "{ 1 }", "[0]", "[-0]", '[1,"a"]']
+        for n_ in range(3000 if thorough else 300):
+            k = rng.randint(2, 7)
+            pool_ = rng.sample(keys, rng.randint(1, 4))
+            lits.setdefault("[" + ",".join("[%s,%d]" % (rng.choice(pool_), 100 + j) for j in range(k)) + "]", None)
+    elif j.get("kind") == "mfa-literal":
+        lits = {j["literal"]: None}
+    T = ("r_ = call { private _p = %s; private _a = createHashMapFromArray _p; private _b = createHashMap; "
+         "{ if (_x isEqualType [] && {count _x == 2}) then { _b set _x } } forEach _p; "
+         "[count _a, count _b, (keys _a) findIf { !(_x in _b) || {!((str (_a get _x)) isEqualTo (str (_b get _x)))} }, "
+         "(keys _b) findIf { !(_x in _a) }] }")
+    lits = sorted(x for x in lits if "nil" not in x and "sqrt" not in x)      # the property's equivalence excludes nil and NaN (a key holding one is never found again)
+    if lits:
+        rc_, out_, err_ = V.run_lines_parallel([himpl], ["-\t" + V.hx((T % x).encode("latin-1")) for x in lits], timeout=3000)
+        nm = 0
+        for x, o in zip(lits, out_):
+            f = o.split("\t")[0].split(";")
+            if len(f) < 2 or f[0] != "":
+                continue        # a literal the operators reject (a key that cannot be hashed, a malformed pair with a diagnostic): not judged here
+            got = D.text(f[1])
+            mm = re.match(r"\[(\d+),(\d+),(-?\d+),(-?\d+)\]$", got)
+            nm += 1
+            if not mm or mm.group(1) != mm.group(2) or mm.group(3) != "-1" or mm.group(4) != "-1":
+                run.violation("createHashMapFromArray does not build the reference dictionary: for the literal %s the map differs from the one `set` builds pair by pair "
+                              "([count of the map, count of the set-built map, first key whose value differs, first key missing] = %s, must be [n,n,-1,-1])" % (x, got),
+                              {"kind": "mfa-literal", "literal": x, "statement": T % x, "got": got, "nvars": 0, "ops": []})
+        kinds["mfa-literal"] = nm
 
     for p in problems:
         run.violation("proof obligation not discharged: " + p, {"broken": p, "theorems": run.cov["theorems"]}, found_input=False)
